@@ -1,0 +1,10 @@
+//go:build verif
+
+// Contracts for package autog (comment-only; compiled to nothing).
+
+package autog
+
+//@ func Layout
+//@   requires monitor.m == nil
+//@   ensures monitor.m == nil
+//@   ensures_on_panic monitor.m == nil
